@@ -66,7 +66,7 @@ Proof.
   destruct (tm_child t i) as [g|]; [|discriminate].
   destruct (tm_glob t g) as [gi|]; [|discriminate].
   destruct (child_lookup i (g_children gi)); [|discriminate].
-  destruct (change_multi gi i r) as [[gi' rm]|]; [|discriminate].
+  destruct (change_multi cfg_fixed gi i r) as [[gi' rm]|]; [|discriminate].
   destruct rm.
   - destruct (tm_remove_timeout t (g_height gi) (TGid g)) as [t1|] eqn:E; [|discriminate].
     apply tm_remove_timeout_fields in E. destruct E as [E _].
@@ -181,6 +181,8 @@ Qed.
 Inductive cm_change (gi : ginfo) (i : txid) (r : N) : ginfo -> bool -> Prop :=
 | CmFail :
     g_state gi = ST_BEGIN -> r = 2 ->
+    (* the reporting child itself is still waiting for its receipt *)
+    set_fsm (match child_lookup i (g_children gi) with Some st => st | None => ST_BEGIN end) (event_of_receipt 2) <> None ->
     cm_change gi i r (Build_ginfo ST_BEGIN_FAILURE (g_height gi)
                                   (child_set i ST_FAILURE (children_all ST_BEGIN_FAILURE (g_children gi))) (g_count gi)) true
 | CmStep st st' :
@@ -196,11 +198,12 @@ Inductive cm_change (gi : ginfo) (i : txid) (r : N) : ginfo -> bool -> Prop :=
     cm_change gi i r (Build_ginfo gs' (g_height gi) (child_set i st' (g_children gi)) (g_count gi)) true.
 
 Lemma change_multi_inv gi i r gi' rm :
-  change_multi gi i r = Some (gi', rm) -> cm_change gi i r gi' rm.
+  change_multi cfg_fixed gi i r = Some (gi', rm) -> cm_change gi i r gi' rm.
 Proof.
-  unfold change_multi. destruct ((g_state gi =? ST_BEGIN) && (r =? 2)) eqn:E.
-  - apply andb_true_iff in E. destruct E as [E1 E2]. apply N.eqb_eq in E1, E2.
-    intro H. inversion H; subst. apply CmFail; [exact E1 | reflexivity].
+  unfold change_multi. cbn [d_fail_after_success cfg_fixed]. destruct ((g_state gi =? ST_BEGIN) && (r =? 2)) eqn:E.
+  - apply andb_true_iff in E. destruct E as [E1 E2]. apply N.eqb_eq in E1, E2. subst r.
+    destruct (set_fsm _ (event_of_receipt 2)) eqn:Ef; [|discriminate].
+    intro H. inversion H; subst. apply CmFail; [exact E1 | reflexivity | rewrite Ef; discriminate].
   - destruct (child_lookup i (g_children gi)) as [st|] eqn:Ecl; [|discriminate].
     destruct (set_fsm st (event_of_receipt r)) as [st'|] eqn:Ef; [|discriminate].
     destruct (multi_finished _ _ _) eqn:Em.
@@ -238,7 +241,7 @@ Proof.
   - destruct (tm_child t i) as [g|] eqn:Ec; [|discriminate].
     destruct (tm_glob t g) as [gi|] eqn:Eg; [|discriminate].
     destruct (child_lookup i (g_children gi)) eqn:Ecl; [|discriminate].
-    destruct (change_multi gi i r) as [[gi' rm]|] eqn:Ecm; [|discriminate].
+    destruct (change_multi cfg_fixed gi i r) as [[gi' rm]|] eqn:Ecm; [|discriminate].
     apply change_multi_inv in Ecm.
     cbn [d_fail_ndst_lost cfg_fixed].
     destruct (if rm then tm_remove_timeout t (g_height gi) (TGid g) else Some t) as [t1|] eqn:E1; [|discriminate].
@@ -258,14 +261,14 @@ Qed.
 (** [change_multi] keeps the key list, the declared count and the timeout height *)
 Lemma change_multi_keys gi i r gi' rm :
   child_lookup i (g_children gi) <> None ->
-  change_multi gi i r = Some (gi', rm) ->
+  change_multi cfg_fixed gi i r = Some (gi', rm) ->
   map fst (g_children gi') = map fst (g_children gi) /\ g_count gi' = g_count gi /\ g_height gi' = g_height gi.
 Proof.
-  intro Hin. unfold change_multi.
+  intro Hin. unfold change_multi. cbn [d_fail_after_success cfg_fixed].
   assert (Hk : forall s l, child_lookup i l <> None -> map fst (child_set i s l) = map fst l).
   { intros s l Hl. rewrite child_set_keys. destruct (child_lookup i l); [reflexivity | contradiction]. }
   destruct ((g_state gi =? ST_BEGIN) && (r =? 2)).
-  - intro H. inversion H; subst. simpl. rewrite Hk.
+  - destruct (set_fsm _ _); [|discriminate]. intro H. inversion H; subst. simpl. rewrite Hk.
     + rewrite children_all_keys. auto.
     + rewrite child_lookup_all. destruct (child_lookup i (g_children gi)); [discriminate | contradiction].
   - destruct (child_lookup i (g_children gi)) as [st|] eqn:E; [|discriminate].
